@@ -8,7 +8,7 @@ SPEC = {
                  'fragment strings; per-path unsat',
     'bounds': {'quick': 'tables of 0..3 rows (slices/groups: 0..2) x MSA in {None, any real}; okta 0..8, bases any '
                         'reals in [0,1e5) ascending; high-cloud flag free; plus 4-row layer tables with bases in [0,1e4]',
-               'thorough': 'tables of 0..4 rows, plus 5-row layer tables with bases in [0,1e4]'},
+               'thorough': 'as quick plus 3-row slices/groups tables, 4-row layer tables without MSA and 5-row layer tables (bases in [0,1e4])'},
     'outside': 'tables with more rows than the bound; that metarize() produces a sorted table with these columns '
                '(harness H-metarize of C03/C04/C05); bases >= 1e5 ft or negative (excluded by the statement)',
     'budget_s': {'quick': 600, 'thorough': 3000},
@@ -34,8 +34,9 @@ def _sizes(kmax, klow):
     return out
 
 
+TH_EXTRA = [(3, 'groups', 0, 0), (3, 'groups', 1, 0), (3, 'slices', 0, 0), (3, 'slices', 1, 0), (4, 'layers', 1, 1), (5, 'layers', 0, 1)]
 HARNESSES = [
-    H('H-msg', h_msg_c01, quick=_sizes(3, 4), thorough=_sizes(4, 5), float_model='R',
+    H('H-msg', h_msg_c01, quick=_sizes(3, 4), thorough=_sizes(3, 4) + TH_EXTRA, float_model='R',
       cover=['NCD', 'NSC', '1 groups', '2 groups', '3 groups', 'layer exactly at the MSA present'],
       doc='real metar_msg(which) on a chunk whose table has k symbolic rows: grammar, order, 1-3-5 ranks, no zero-okta '
           'row, no row at/above the MSA'),
